@@ -65,6 +65,23 @@ func run(c *hk.Ctx) {
 				continue
 			}
 			c.Emit(map[string]any{"c": "frames.sseEvent", "id": id, "data": p}, map[string]any{"chunks": rec.chunks}, strings.Contains(p, "\n"), "sseEvent")
+			// model-free oracle: a standards-conforming reader recovers exactly the data (minus one trailing LF; CR is a line
+			// terminator for SSE readers, so payloads with CR are out of scope of this oracle — JSON messages never contain one)
+			if !strings.Contains(p, "\r") && p != "" {
+				evs := parseSSE(strings.Join(rec.chunks, ""))
+				want := strings.TrimSuffix(p, "\n")
+				if len(evs) != 1 || evs[0] != want {
+					got := "<none>"
+					if len(evs) > 0 {
+						got = evs[0]
+					}
+					if len(got) > 120 {
+						got = got[:120] + "…"
+					}
+					c.Violate(hk.Violation{Fingerprint: "frames:sse:write-event-not-transparent", What: "the data lines of an event written by sseutil.WriteEvent do not reassemble to the message",
+						Input: map[string]any{"data_len": len(p), "data_prefix": p[:min(len(p), 60)]}, Observed: map[string]any{"events": len(evs), "first": got}})
+				}
+			}
 		}
 		for _, ty := range []string{"message", ""} {
 			ev := mcp.VerifFormatSSEEvent(ty, []byte(p))
@@ -74,6 +91,35 @@ func run(c *hk.Ctx) {
 	stdioStress(c)
 	getStreamStress(c)
 	legacySSEStress(c)
+}
+
+// parseSSE is a minimal WHATWG event-stream reader: returns the data of each dispatched event.
+func parseSSE(stream string) []string {
+	var out []string
+	var data []string
+	has := false
+	for _, line := range strings.Split(stream, "\n") {
+		line = strings.TrimSuffix(line, "\r")
+		if line == "" {
+			if has {
+				out = append(out, strings.Join(data, "\n"))
+			}
+			data, has = nil, false
+			continue
+		}
+		if strings.HasPrefix(line, ":") {
+			continue
+		}
+		field, val := line, ""
+		if i := strings.Index(line, ":"); i >= 0 {
+			field, val = line[:i], strings.TrimPrefix(line[i+1:], " ")
+		}
+		if field == "data" {
+			data = append(data, val)
+			has = true
+		}
+	}
+	return out
 }
 
 // ampWriter records bytes atomically per Write call and then yields, to widen the window between the calls of one frame.
@@ -253,6 +299,9 @@ func getStreamStress(c *hk.Ctx) {
 			defer wg.Done()
 			for i := 0; i < per; i++ {
 				payload := strings.Repeat("p", (w*per+i)%3000)
+				if (w*per+i)%37 == 5 {
+					payload = strings.Repeat("L", 70000+i) // beyond bufio's 64 KiB token size
+				}
 				var err error
 				if i%10 == 9 {
 					ctx, cancel := context.WithTimeout(context.Background(), time.Millisecond)
